@@ -241,6 +241,28 @@ Theorem C19_agree_implies_holds : forall pint pflt pval dt f src ob,
 Proof. exact agree_implies_holds. Qed.
 Print Assumptions C19_agree_implies_holds.
 
+(** which re-cuts of a body the decidable statement accepts when a grid is
+    returned ([grid_is_file] uses [regroup nc [] rows]): one grid row per line
+    is accepted as it is; an accepted regrouping is the file's values in file
+    order in rows of [nc], each made of whole lines; a line longer than a grid
+    row (row-per-line body under swapped counts or another factorisation with
+    fewer columns) is never accepted *)
+Theorem C19_regroup_rows : forall (nc : nat) (rows : list (list num)),
+  (1 <= nc)%nat -> Forall (fun r => length r = nc) rows -> regroup nc [] rows = Some rows.
+Proof. exact (@regroup_rows num). Qed.
+Print Assumptions C19_regroup_rows.
+
+Theorem C19_regroup_spec : forall (nc : nat) (rows : list (list num)) acc grows,
+  regroup nc acc rows = Some grows ->
+  concat grows = (acc ++ concat rows)%list /\ Forall (fun r => length r = nc) grows.
+Proof. exact (@regroup_spec num). Qed.
+Print Assumptions C19_regroup_spec.
+
+Theorem C19_regroup_long_line : forall (nc : nat) (r : list num) t,
+  (nc < length r)%nat -> regroup nc [] (r :: t) = None.
+Proof. exact (@regroup_long_line num). Qed.
+Print Assumptions C19_regroup_long_line.
+
 (** ** Non-vacuity: a 2 x 3 file with irregular whitespace and one blank *)
 Definition ex_int := lookup [("2", Some 2%Z); ("3", Some 3%Z); ("6", Some 6%Z)].
 Definition ex_flt := lookup [("0", Some (Fin (0, 0)%Z)); ("1", Some (Fin (1, 0)%Z));
@@ -289,3 +311,11 @@ Example C19_nv_threshold :
   (Qabs (D2Q (thr F64) - inject_Z (170141 * 10 ^ 33)) <= inject_Z (2 ^ 73))%Q /\
   (D2Q (thr F64) <= D2Q (thr F32))%Q.
 Proof. split; vm_compute; discriminate. Qed.
+
+(** a grid row wrapped over two lines regroups; lines that straddle grid rows
+    or hold several do not *)
+Example C19_nv_regroup :
+  regroup 3 [] [[1; 2]; [3]; [4; 5; 6]]%Z = Some [[1; 2; 3]; [4; 5; 6]]%Z /\
+  regroup 3 [] [[1; 2]; [3; 4]; [5; 6]]%Z = None /\
+  regroup 2 [] [[1; 2; 3; 4]; [5; 6; 7; 8]]%Z = None.
+Proof. repeat split. Qed.
